@@ -42,6 +42,9 @@ def generate(prop, rng):
         # workspace entries that are symbolic links to files kept elsewhere (edits go to the target)
         "symlinked": [] if big else [i for i in range(nfiles) if rng.random() < 0.15],
     }
+    # names that do not exist at the start (a file may be created there or moved there later)
+    cfg["absent"] = [] if big or nfiles < 2 else [i for i in range(1, nfiles) if rng.random() < 0.2]
+    cfg["symlinked"] = [i for i in cfg["symlinked"] if i not in cfg["absent"]]
     ops = []
     nsteps = rng.randint(3, 8) if big else rng.randint(5, 25)
     for _ in range(nsteps):
@@ -49,7 +52,8 @@ def generate(prop, rng):
         if o == "mutate":
             ops.append({"op": o, "file": rng.randrange(nfiles),
                         "how": rng.choice(["write", "same_len", "diff_len", "append", "replace", "replace_same_len", "touch", "delete",
-                                           "recreate", "empty", "restore_old_stat", "restore_old_stat", "replace_keep_mtime"]),
+                                           "recreate", "empty", "restore_old_stat", "restore_old_stat", "replace_keep_mtime",
+                                           "move_rewrite", "move_rewrite"]),
                         "tag": rng.randrange(100)})
         elif o == "clock":
             if rng.random() < 0.25:
@@ -60,9 +64,12 @@ def generate(prop, rng):
             ops.append({"op": o, "file": rng.randrange(nfiles), "what": rng.choice(["other_algo", "newer_version", "legacy_name"])})
         else:
             kind = gen.weighted(rng, [(3, "get"), (4, "get_many"), (3, "hash_file"), (3, "build_dry"), (2, "build_entries"),
-                                      (2, "snap_index"), (2, "update_check"), (1, "nonlocal"), (2, "hash_file_legacy")])
+                                      (2, "snap_index"), (2, "update_check"), (1, "nonlocal"), (2, "hash_file_legacy"),
+                                      (3, "remd5")])
             q = {"op": o, "kind": kind, "file": rng.randrange(nfiles), "with_info": rng.random() < 0.5,
                  "subset": rng.random(), "persist": rng.random() < 0.4}
+            if kind == "remd5" and rng.random() < 0.6:
+                q["read_fault"] = {"nth": rng.randint(1, 3), "exc": rng.choice(["EACCES", "EIO"])}
             if kind == "hash_file" and not big and rng.random() < 0.3:
                 # the user rewrites the file after it was read and before its hash is recorded
                 q["late_write"] = {"same_len": rng.random() < 0.5}
@@ -126,6 +133,8 @@ def execute(sc, ctx):
     saved = {}  # path -> {token: bytes when a row may have been written}
     row = {}  # path -> (token, bytes) model of the current md5 row
     lrow = {}  # path -> (token, bytes) model of the row while it belongs to the legacy algorithm
+    ralt = {}  # path -> (token, [bytes]) a second possibility for the md5 row (file rewritten during a walk:
+    #            its directory may have been listed before or after the rewrite)
     hits = invalidations = 0
     gen_n = [0]
 
@@ -174,6 +183,9 @@ def execute(sc, ctx):
         return b
 
     for i in range(len(files)):
+        if i in cfg.get("absent", []):
+            cur[i] = None
+            continue
         write(i, fresh(0) if not cfg["big"] else b"%d" % (i % 7))
         if i in symlinked:
             w.mkdirs(os.path.dirname(path(i)))
@@ -191,6 +203,10 @@ def execute(sc, ctx):
                 except FileNotFoundError:
                     continue
                 r = row.get(path(i))
+                ra = ralt.get(path(i))
+                if ra is not None and ra[0] == t and (r is None or r[0] != t):
+                    row[path(i)] = r = ra  # the alternative turned out to be the row that matches
+                ralt.pop(path(i), None)
                 if r is None or r[0] != t:
                     row[path(i)] = (t, cur[i])
                     lrow.pop(path(i), None)
@@ -214,6 +230,8 @@ def execute(sc, ctx):
         except FileNotFoundError:
             return
         r = row.get(p)
+        if (r is None or r[0] != t) and ralt.get(p) is not None and ralt[p][0] == t:
+            r = ralt[p]
         cands = r[1] if (r is not None and r[0] == t) else None
         if cands is not None:
             # the row was written for this very (inode, mtime, size) triple; it may vouch for any
@@ -223,7 +241,8 @@ def execute(sc, ctx):
             if any(c != cur[i] and value == model.ref_digest("md5", c) for c in cands):
                 ctx.probe("invisible_mutation_tolerated")
                 return
-        ctx.violate("stale-or-wrong-hash", where, f"{files[i]}: returned {value[:8]} actual {want[:8]} (token {t})")
+        ctx.violate("stale-or-wrong-hash", where, f"{files[i]}: returned {value[:8]} actual {want[:8]} (token {t}); model row "
+                    f"{(r[0], [model.ref_digest('md5', c)[:8] for c in ([r[1]] if isinstance(r[1], bytes) else r[1])]) if r else None}")
 
     old_index = None
     old_index_bytes = None
@@ -253,6 +272,25 @@ def execute(sc, ctx):
                     cur[i] = None
                 versions.pop(i, None)
                 write(i, fresh(op["tag"], None))
+            elif how == "move_rewrite":
+                # the file is renamed to a name that is free right now (same inode) and then rewritten in
+                # place with bytes of the same length at a later time
+                free = [j for j in range(len(files)) if cur.get(j) is None and j != i]
+                if cur.get(i) is not None and free and i not in symlinked and len(cur[i]) > 0:
+                    j = free[op["tag"] % len(free)]
+                    w.mkdirs(os.path.dirname(path(j)))
+                    REAL["os.rename"](path(i), path(j))
+                    nb = fresh(op["tag"], len(cur[i]))
+                    cur[i] = None
+                    versions.pop(i, None)
+                    versions.pop(j, None)
+                    symlinked.discard(j)
+                    ctx.clock.advance(10**9)
+                    with REAL["open"](path(j), "r+b") as f:
+                        f.write(nb)
+                    ctx.seam.stamp(path(j))
+                    cur[j] = nb
+                    ctx.probe("moved_then_rewritten_in_place")
             elif how == "replace_keep_mtime":
                 # atomic replacement (new inode) by bytes of the SAME length carrying the SAME mtime
                 # (cp -p / rsync -t / a clock step): size and mtime are unchanged, the inode is not
@@ -469,6 +507,10 @@ def execute(sc, ctx):
                 lrow.pop(path(j), None)
                 if mid_invisible.get(j):
                     row[path(j)] = mid_invisible[j]
+                    try:
+                        ralt[path(j)] = (token(path(j)), [cur[j]])  # listed after the rewrite: (new triple, new bytes)
+                    except FileNotFoundError:
+                        pass
                 else:
                     row.pop(path(j), None)
         elif kind == "build_entries":
@@ -484,8 +526,39 @@ def execute(sc, ctx):
                 lrow.pop(path(j), None)
                 if mid_invisible.get(j):
                     row[path(j)] = mid_invisible[j]
+                    try:
+                        ralt[path(j)] = (token(path(j)), [cur[j]])  # listed after the rewrite: (new triple, new bytes)
+                    except FileNotFoundError:
+                        pass
                 else:
                     row.pop(path(j), None)
+        elif kind == "remd5":
+            # an index that already carries hashes (the previous snapshot, still in memory) is run through
+            # md5() again: what comes back must be current, entries that changed are dropped
+            if old_index is None or op.get("persist") is None:
+                continue
+            rf = op.get("read_fault")
+            rf0 = ctx.seam.fired.get("md5_read", 0)
+            if rf:
+                ctx.seam.faults = [{"at": ("open_r",), "match": "ws/", "sub": True, "nth": rf["nth"], "exc": rf["exc"],
+                                    "name": "md5_read", "count": 1}]
+            try:
+                again = imd5(old_index, state=state)
+            except OSError:
+                ctx.seam.faults = []
+                if ctx.seam.fired.get("md5_read", 0) > rf0:
+                    ctx.probe("md5_refused_after_read_error")
+                    continue
+                raise
+            except Exception:  # noqa: BLE001  (a re-opened index has no data storage: nothing to re-hash)
+                ctx.seam.faults = []
+                continue
+            ctx.seam.faults = []
+            for key, e in again.iteritems():
+                rel = "/".join(key)
+                if rel in files and e.hash_info and cur.get(files.index(rel)) is not None:
+                    judge(files.index(rel), e.hash_info.name, e.hash_info.value, "index.md5(again)")
+            note_saved(range(len(files)))
         elif kind == "snap_index":
             old_index = imd5(ibuild(ws, fs), state=state)
             if op.get("persist"):
